@@ -75,6 +75,10 @@ FIXED = [
  ('C03', 'boundary connectivity of a volume maps the border edges when config.complete_edges_from_faces is off', 'with config.complete_edges_from_faces=False the border surface of enable_boundary_connectivity had no edges: every border edge was mapped to None and the edge maps were not mutually inverse'),
  ("C07", "intersect_2lines2D tests parallelism relative to the direction lengths", "geometry.circumcenter / attributes.face_circumcenter raised AttributeError on non-degenerate triangles with edge lengths around 1e-6 (absolute 1e-12 parallelism threshold on a quantity in length^2 in intersect_2lines2D)"),
  ("C06", "translate by one of the mesh's own vertices", "transform.translate(mesh, mesh.vertices[i]) moved the vertices after i by twice the vector (in-place += on the vector itself once its own vertex was reached)"),
+ ("C12", "distance_to_segment2D treats only a zero-length segment as a point", "geometry.distance_to_segment2D returned the distance to the first end point for every segment shorter than 1e-6 (absolute 1e-12 threshold on the squared length)"),
+ ("C12", "axis_rot_from_z aligns z with short vectors too", "rotations.axis_rot_from_z returned a rotation by |v| radians for |v| < 1e-8 (absolute threshold on |z x v|) instead of the rotation aligning z with v"),
+ ("C19", "a Bezier curve or patch with a single control point returns a copy of it", "BezierCurve([p]).evaluate(t) / BezierPatch([[p]]).evaluate(u,v) returned the stored control point itself: editing the returned vector in place moved the curve / patch and the caller's array"),
+ ("C09", "shortest_path accepts a numpy integer as a single target", "a one-element target collection of numpy integers (or a bare numpy integer) raised TypeError in shortest_path / shortest_path_to_vertex_set while collections of two or more worked"),
  ("C02", "edge attributes survive the removal of invalid edges", "dropping an invalid edge lost the values of dense edge attributes (ValueError for vector ones) and the custom default of sparse ones"),
  ("C02", "cell/face connectivity works when cells are numpy rows", "face_to_cells / cell_to_face / in_cell_face_index raised ValueError on volume meshes whose cells are numpy rows (from_arrays)"),
  ("C16", "singularity cutter reaches every face", "SingularityCutter with a feature detector and >= 1 singularity: faces enclosed by forbidden feature edges were never reached by the dual search and the cut mesh fell apart into several components"),
